@@ -9,7 +9,6 @@ import (
 	"go/types"
 	"strings"
 
-	"golang.org/x/tools/go/packages"
 	"golang.org/x/tools/go/types/typeutil"
 )
 
@@ -175,25 +174,6 @@ func fieldOf(info *types.Info, e ast.Expr) (ast.Expr, *types.Var) {
 	return sel.X, v
 }
 
-// isField reports whether e is a selection of field `field` declared in the
-// struct type pkgPath.typ (the field is matched by object: name + owner).
-func isFieldOf(info *types.Info, e ast.Expr, pkgPath, typ, field string) bool {
-	x, v := fieldOf(info, e)
-	if v == nil || v.Name() != field {
-		return false
-	}
-	tv, ok := info.Types[x]
-	if !ok {
-		return false
-	}
-	// the field may be promoted through embedding: accept if the receiver
-	// type is the named type, or the field's package matches
-	if namedIs(tv.Type, pkgPath, typ) {
-		return true
-	}
-	return false
-}
-
 // walkFunc visits every node of body except nested function literals when
 // skipLits is set.
 func inspectBody(body ast.Node, skipLits bool, f func(ast.Node) bool) {
@@ -233,19 +213,9 @@ func returnsIn(body ast.Node) []*ast.ReturnStmt {
 	return out
 }
 
-func pkgInfo(p *packages.Package) *types.Info { return p.TypesInfo }
-
 // typeString with package-relative qualifier.
 func typeStr(t types.Type) string {
 	return types.TypeString(t, func(p *types.Package) string { return p.Name() })
-}
-
-// implementsIface reports whether t (or *t) implements the interface iface.
-func implementsIface(t types.Type, iface *types.Interface) bool {
-	if iface == nil {
-		return false
-	}
-	return types.Implements(t, iface)
 }
 
 // binaryOpString of token
